@@ -31,7 +31,8 @@ Inductive arg :=
 | AStr (s : string)
 | AFrame (h : Z)          (* a frame handle *)
 | AFrames (hs : list Z)
-| ASym (s : string).      (* an expression the translator does not evaluate, as source text *)
+| ASym (s : string)       (* an expression the translator does not evaluate, as source text *)
+| ABytes (bs : list Z).   (* a []byte value built by the translated code (literal, append) *)
 
 Inductive outcome (W A : Type) :=
 | Ok (a : A) (w : W)
